@@ -69,6 +69,10 @@ def gen_doc(rng, big=False):
             return {"build": "py_0", "build_number": rng.randrange(5), "depends": [jsonvals.rand_string(rng, 6) for _ in range(rng.randint(0, 3))],
                     "md5": "%032x" % rng.getrandbits(128), "name": jsonvals.rand_string(rng, 8), "size": rng.randrange(10**7),
                     "timestamp": rng.randrange(10**12), "version": "%d.%d" % (rng.randrange(9), rng.randrange(9))}
+        if r < 0.7:
+            # metadata that uses the library's own vocabulary as data (an artifact record that is itself envelope-shaped, has
+            # members called signatures / signed / ...): still opaque metadata, signed as a whole like any other
+            return jsonvals.self_similar(rng)
         return jsonvals.rand_value(rng, 0, 3, 3)
 
     doc = {"info": {"subdir": "linux-64"}, "packages": {n: md() for n in names(npk, ".tar.bz2")}}
